@@ -63,8 +63,14 @@ type TPkg struct {
 	Listed    bool          `json:"listed"`                  // has its own entry under packages:
 	Recursive bool          `json:"recursive,omitempty"`     // recursive: true in its config (par only)
 	Rules     []Rule        `json:"rules,omitempty"`         // replace-type of the package config (listed only)
-	IfListed  bool          `json:"ifaces_listed,omitempty"` // Svc and Other written under interfaces:
-	SvcRules  []Rule        `json:"svc_rules,omitempty"`     // replace-type of Svc's config (IfListed only)
+	// SvcMode / OtherMode (listed packages only): how the interface is selected. "" = by the
+	// root's include-interface-regex only; "null" = named under interfaces: with an empty
+	// entry; "config" = named with a config: that has no replace-type; "rules" = named with
+	// a config: holding SvcRules / OtherRules.
+	SvcMode    string `json:"svc_mode,omitempty"`
+	OtherMode  string `json:"other_mode,omitempty"`
+	SvcRules   []Rule `json:"svc_rules,omitempty"`
+	OtherRules []Rule `json:"other_rules,omitempty"`
 	Svc       []progen.Meth `json:"svc"`
 	Other     []progen.Meth `json:"other"`
 }
